@@ -125,6 +125,22 @@ var c17ALetters = func() []c17Letter {
 			d.SetCSel(63)
 			d.SetCReg(0, false, rgba(0x12, 0x34, 0x56, 0x78))
 		}},
+		c17Letter{name: "all-registers", class: kStyling, apply: func(d ivg.Destination, e *encode.Encoder) {
+			// every colour and number register by incrementing writes, then the number registers
+			// around the wrap by adjustment from selectors 0 and 3 (NREG[NSEL-adj] with adj > NSEL)
+			for i := 0; i < 64; i++ {
+				d.SetCReg(0, true, rgba(uint8(3*i), uint8(i), 7, 0xff))
+				d.SetNReg(0, true, 0.25+float32(i)/128)
+			}
+			d.SetNSel(0)
+			for i := uint8(1); i <= 6; i++ {
+				d.SetNReg(i, false, 0.5+float32(i))
+			}
+			d.SetNSel(3)
+			for i := uint8(0); i <= 6; i++ {
+				d.SetNReg(i, false, 1.5-float32(i))
+			}
+		}},
 		c17Letter{name: "Reset(shifted viewBox)", class: kReset, apply: func(d ivg.Destination, e *encode.Encoder) {
 			// same extent as the viewBox of the later program, other origin
 			d.Reset(ivg.ViewBox{MinX: -32 + 7, MinY: -32 - 2, MaxX: 32 + 7, MaxY: 32 - 2}, ivg.DefaultPalette)
@@ -218,6 +234,9 @@ var c17Progs = []c17Prog{
 		d.SetCReg(0, false, rgba(0x02, 0x40|20, 0x80|20, 0x00))
 		tri(d, 0)
 	}},
+	{"nreg-gradient-unset-matrix-nbase0", false, func(d ivg.Destination) { c17UnsetMatrix(d, 0) }},
+	{"nreg-gradient-unset-matrix-nbase3", false, func(d ivg.Destination) { c17UnsetMatrix(d, 3) }},
+	{"nreg-gradient-unset-matrix-nbase61", false, func(d ivg.Destination) { c17UnsetMatrix(d, 61) }},
 	{"gradient-helper-readback", false, func(d ivg.Destination) {
 		var g generate.Generator
 		g.SetDestination(d)
@@ -244,6 +263,20 @@ var c17Progs = []c17Prog{
 		d.AbsCubeTo(1, 2, 3, 4, 5, 6)
 		d.ClosePathEndPath()
 	}},
+}
+
+// c17UnsetMatrix: a two-stop gradient at NBASE whose six matrix registers (below NBASE, modulo
+// 64) and whose third stop register are never written: they must read as zero.
+func c17UnsetMatrix(d ivg.Destination, nbase uint8) {
+	d.SetCSel(20)
+	d.SetNSel(nbase)
+	d.SetCReg(0, true, rgba(0xff, 0, 0, 0xff))
+	d.SetNReg(0, true, 0)
+	d.SetCReg(0, true, rgba(0, 0, 0xff, 0xff))
+	d.SetNReg(0, true, 1)
+	d.SetCSel(0)
+	d.SetCReg(0, false, rgba(0x02, 0x40|20, 0x80|nbase, 0x00))
+	tri(d, 0)
 }
 
 type c17Case struct {
@@ -351,6 +384,40 @@ func newC17State(w *mc.W) *c17State {
 			// encoding the same calls twice gives byte-identical output
 			if again := st.encB(&encode.Encoder{}, pi, m); !bytes.Equal(again, bs[m]) {
 				w.Fail("not-deterministic:"+c17Progs[pi].name, fmt.Sprintf("two fresh Encoders fed program %q yield %x and %x", c17Progs[pi].name, bs[m], again), c17Case{B: pi, Meta: m, Kind: "encoder"})
+			}
+		}
+		// calling Bytes (twice) after every single call, also inside open paths and pending runs,
+		// changes nothing: each pair returns equal bytes and the final stream decodes to the same calls
+		{
+			m := &c01Metas[0]
+			var rd rec.Dest
+			rd.Next = &encode.Encoder{}
+			rd.Reset(m.vb, m.pal)
+			c17Progs[pi].run(&rd)
+			e := &encode.Encoder{}
+			for i := range rd.Calls {
+				if i == 1 && c17Progs[pi].hires {
+					e.HighResolutionCoordinates = true
+				}
+				rd.Calls[i].Apply(e)
+				b1, err1 := e.Bytes()
+				b1 = append([]byte(nil), b1...)
+				b2, err2 := e.Bytes()
+				if err1 != err2 || !bytes.Equal(b1, b2) {
+					w.Fail("bytes-twice:"+c17Progs[pi].name, fmt.Sprintf("program %q: after call %d (%s) two consecutive Bytes() return %x and %x", c17Progs[pi].name, i, rd.Calls[i].String(), b1, b2), c17Case{B: pi, Kind: "encoder"})
+					break
+				}
+			}
+			// (the bytes themselves may differ: a Bytes call ends a pending run, so a run of two
+			// becomes two runs of one - another call history, same meaning)
+			fin, ferr := e.Bytes()
+			var d1, d2 rec.Dest
+			plain := bs[0]
+			if i := bytes.LastIndexByte(plain, '|'); i >= 0 {
+				plain = plain[:i]
+			}
+			if ferr != nil || decode.Decode(&d1, fin) != nil || decode.Decode(&d2, plain) != nil || firstDiff(d1.Calls, d2.Calls) >= 0 || len(d1.Calls) != len(d2.Calls) {
+				w.Fail("bytes-in-between:"+c17Progs[pi].name, fmt.Sprintf("program %q with Bytes() called after every call yields %x (err %v), which does not decode to the same calls as %x", c17Progs[pi].name, fin, ferr, plain), c17Case{B: pi, Kind: "encoder"})
 			}
 		}
 		st.freshEnc = append(st.freshEnc, bs)
